@@ -19,6 +19,9 @@
 //! resolves to Err, then a fresh well-behaved connection that must be
 //! answered, for small configured connection limits and the default 100.
 //!
+//! Part (e): DgramServer::reconfigure lowers/raises the response size limit
+//! between requests; product of (l1, l2, service size, advertised size).
+//!
 //! Tiers: (a) quick = boundary offsets {-18,-17,-12,-11,-10,-1,0,+1} around
 //! {512,513,1232,4096,65535}, thorough = every offset -24..=+2 and six more
 //! advertised sizes; (b) quick <= 3 deviations, thorough <= 4.
@@ -139,6 +142,28 @@ fn opt_rr(size: u16, version: u8, options: &[u8]) -> Vec<u8> {
     v
 }
 
+/// A plain `ns.example. 60 IN A 192.0.2.53` record.
+fn a_rr() -> Vec<u8> {
+    let mut v = name_wire(&[b"ns", b"example"]);
+    v.extend_from_slice(&[0, 1, 0, 1, 0, 0, 0, 60, 0, 4, 192, 0, 2, 53]);
+    v
+}
+
+/// A TSIG-looking record (`key.example. 0 ANY TSIG hmac-sha256. ...`).
+fn tsig_rr() -> Vec<u8> {
+    let mut rd = name_wire(&[b"hmac-sha256"]);
+    rd.extend_from_slice(&[0, 0, 0x65, 0x00, 0x00, 0x00]); // time signed
+    rd.extend_from_slice(&[0x01, 0x2c]); // fudge
+    rd.extend_from_slice(&[0, 32]);
+    rd.extend_from_slice(&[0x5A; 32]); // mac
+    rd.extend_from_slice(&[0xBE, 0xEF, 0, 0, 0, 0]); // original id, error, other len
+    let mut v = name_wire(&[b"key", b"example"]);
+    v.extend_from_slice(&[0, 250, 0, 255, 0, 0, 0, 0]);
+    v.extend_from_slice(&(rd.len() as u16).to_be_bytes());
+    v.extend_from_slice(&rd);
+    v
+}
+
 const F_RD: u16 = 0x0100;
 const F_QR: u16 = 0x8000;
 const F_TC: u16 = 0x0200;
@@ -193,6 +218,14 @@ enum EdnsReq {
     TwoOpts,
     CookieClient,
     CookieMalformed,
+    /// no OPT, but a plain A record in the additional section
+    OtherA,
+    /// no OPT, but a TSIG-looking record in the additional section
+    OtherTsig,
+    /// OPT (1232) followed by an A record
+    OptThenA,
+    /// an A record followed by OPT (1232)
+    AThenOpt,
 }
 
 impl EdnsReq {
@@ -204,6 +237,10 @@ impl EdnsReq {
             EdnsReq::TwoOpts => "two-opts".into(),
             EdnsReq::CookieClient => "cookie-client".into(),
             EdnsReq::CookieMalformed => "cookie-malformed".into(),
+            EdnsReq::OtherA => "no-opt+additional-A".into(),
+            EdnsReq::OtherTsig => "no-opt+additional-TSIG".into(),
+            EdnsReq::OptThenA => "opt-then-A".into(),
+            EdnsReq::AThenOpt => "A-then-opt".into(),
         }
     }
 }
@@ -244,6 +281,10 @@ impl ACase {
             EdnsReq::TwoOpts => ("two-opts", 0),
             EdnsReq::CookieClient => ("cookie-client", 0),
             EdnsReq::CookieMalformed => ("cookie-malformed", 0),
+            EdnsReq::OtherA => ("other-a", 0),
+            EdnsReq::OtherTsig => ("other-tsig", 0),
+            EdnsReq::OptThenA => ("opt-then-a", 0),
+            EdnsReq::AThenOpt => ("a-then-opt", 0),
         };
         json!({
             "part": "a", "transport": t, "limit": limit, "edns": ek, "edns_size": ev,
@@ -263,6 +304,10 @@ impl ACase {
             "version1" => EdnsReq::Version1,
             "two-opts" => EdnsReq::TwoOpts,
             "cookie-client" => EdnsReq::CookieClient,
+            "other-a" => EdnsReq::OtherA,
+            "other-tsig" => EdnsReq::OtherTsig,
+            "opt-then-a" => EdnsReq::OptThenA,
+            "a-then-opt" => EdnsReq::AThenOpt,
             _ => EdnsReq::CookieMalformed,
         };
         let size = match v["size"].as_u64() {
@@ -298,6 +343,16 @@ impl ACase {
                 ar.push(opt_rr(1232, 0, &[0, 10, 0, 8, 1, 2, 3, 4, 5, 6, 7, 8]))
             }
             EdnsReq::CookieMalformed => ar.push(opt_rr(1232, 0, &[0, 10, 0, 5, 1, 2, 3, 4, 5])),
+            EdnsReq::OtherA => ar.push(a_rr()),
+            EdnsReq::OtherTsig => ar.push(tsig_rr()),
+            EdnsReq::OptThenA => {
+                ar.push(opt_rr(1232, 0, &[]));
+                ar.push(a_rr());
+            }
+            EdnsReq::AThenOpt => {
+                ar.push(a_rr());
+                ar.push(opt_rr(1232, 0, &[]));
+            }
         }
         let mut m = hdr(0xBEEF, F_RD, [1, 0, 0, ar.len() as u16]);
         m.extend_from_slice(&q);
@@ -564,7 +619,9 @@ fn judge_a(c: &ACase, out: &AOut) -> (Vec<(String, String)>, String, bool) {
             };
             if fin.len() > bound {
                 over = true;
-                let cause = if adv.is_none() {
+                let cause = if adv.is_none() && req_opts.is_empty() && rq.counts[3] > 0 {
+                    "no-edns-but-other-additional-records|response>512"
+                } else if adv.is_none() {
                     if limit.map(|l| l > 512).unwrap_or(false) {
                         "no-edns|configured-limit>512|response>512"
                     } else {
@@ -655,6 +712,7 @@ fn a_cases(quick: bool) -> Vec<ACase> {
     es.sort();
     edns.extend(es.into_iter().map(EdnsReq::Size));
     edns.extend([EdnsReq::Version1, EdnsReq::TwoOpts, EdnsReq::CookieClient, EdnsReq::CookieMalformed]);
+    edns.extend([EdnsReq::OtherA, EdnsReq::OtherTsig, EdnsReq::OptThenA, EdnsReq::AThenOpt]);
     let mut transports = vec![Transport::Tcp(false), Transport::Tcp(true)];
     for l in [None, Some(512u16), Some(1232), Some(4096)] {
         transports.push(Transport::Udp(l));
@@ -2009,6 +2067,161 @@ fn failed_setup_cases(quick: bool) -> Vec<(usize, Option<usize>)> {
 }
 
 // ===========================================================================
+// Part (e): DgramServer::reconfigure changes the response size limit
+// ===========================================================================
+
+#[derive(Clone, Copy, Debug)]
+struct ReconfCase {
+    l1: Option<u16>,
+    l2: Option<u16>,
+    size: usize,
+    adv: u16,
+}
+
+fn dgram_config(limit: Option<u16>) -> dgram::Config {
+    let mut c = dgram::Config::new();
+    c.set_max_response_size(limit);
+    c
+}
+
+/// Start with limit l1, serve a request, reconfigure to l2, serve a request,
+/// reconfigure back to l1, serve a request. The limit that applies to a
+/// request is the one configured when it is received ("any change to this
+/// setting will only affect requests received after the setting is changed",
+/// dgram::Config::set_max_response_size); every reconfigure() is followed by
+/// one second of virtual time before the next datagram arrives.
+fn run_reconfigure(rc: &ReconfCase, col: &Collector) {
+    let env = Env::new(Chooser::default(), true);
+    let _ = take_task_panics();
+    let ac = ACase { transport: Transport::Udp(rc.l1), edns: EdnsReq::Size(rc.adv), size: SizeSpec::Abs(rc.size), resp_opt: 0, qlong: false, layout: 1 };
+    let req = ac.request();
+    let spec = ASvcSpec {
+        size: ac.size,
+        resp_opt: 0,
+        layout: 1,
+        out: Arc::new(Mutex::new(None)),
+        unconstructible: Arc::new(AtomicBool::new(false)),
+    };
+    let spec2 = spec.clone();
+    let env2 = env.clone();
+    let req2 = req.clone();
+    let rc2 = *rc;
+    let rt = new_runtime();
+    let res = guard(|| {
+        rt.block_on(async move {
+            let sock = MockSock::new(&env2);
+            let svc = mk_stack(service_fn::<Vec<u8>, Vec<u8>, _, (), _>(a_handler, spec2.clone()));
+            let srv = Arc::new(DgramServer::with_config(sock.clone(), VecBufSource, svc, dgram_config(rc2.l1)));
+            let s2 = srv.clone();
+            let jh = tokio::spawn(async move { s2.run().await });
+            let limits = [rc2.l1, rc2.l2, rc2.l1];
+            let mut svc_bytes: Vec<Option<Vec<u8>>> = Vec::new();
+            let mut reconf_ok = true;
+            for (i, l) in limits.iter().enumerate() {
+                if i > 0 {
+                    reconf_ok &= srv.reconfigure(dgram_config(*l)).is_ok();
+                    tokio::time::sleep(Duration::from_secs(1)).await;
+                }
+                *spec2.out.lock().unwrap() = None;
+                sock.deliver(req2.clone(), dgram_addr(i));
+                tokio::time::sleep(Duration::from_secs(1)).await;
+                svc_bytes.push(spec2.out.lock().unwrap().clone());
+            }
+            let alive = !jh.is_finished();
+            let _ = srv.shutdown();
+            tokio::time::sleep(Duration::from_secs(1)).await;
+            let sends = sock.0.st.lock().unwrap().sends.clone();
+            (sends, svc_bytes, alive, reconf_ok)
+        })
+    });
+    drop(rt);
+    let panics = take_task_panics();
+    let replay = json!({"part": "reconfigure", "l1": rc.l1, "l2": rc.l2, "size": rc.size, "adv": rc.adv});
+    let mut viol: Vec<(String, String)> = Vec::new();
+    for p in &panics {
+        viol.push((format!("C16|dgram-reconfigure|panic|{}", panic_class(p)), format!("panic in the datagram server: {p}")));
+    }
+    let (sends, svc_bytes, alive, reconf_ok) = match res {
+        Ok(x) => x,
+        Err(p) => {
+            if panics.is_empty() {
+                viol.push((format!("C16|dgram-reconfigure|panic|{}", panic_class(&p)), format!("panic: {p}")));
+            }
+            col.report(viol, &replay);
+            return;
+        }
+    };
+    if spec.unconstructible.load(Ordering::SeqCst) {
+        eprintln!("MACHINERY: reconfigure case {rc:?} asks for a size that cannot be built");
+        std::process::exit(2);
+    }
+    if !alive {
+        viol.push(("C16|dgram-reconfigure|server-task-exited".into(), "DgramServer::run returned after reconfigure()".into()));
+    }
+    if !reconf_ok {
+        viol.push(("C16|dgram-reconfigure|reconfigure-rejected".into(), "DgramServer::reconfigure returned an error while the server was running".into()));
+    }
+    let rank = |l: Option<u16>| l.map(|x| x as u32).unwrap_or(u32::MAX);
+    let limits = [rc.l1, rc.l2, rc.l1];
+    let st = &col.stats;
+    st.eval();
+    for i in 0..3 {
+        let phase = if i == 0 {
+            "initial-limit"
+        } else if rank(limits[i]) < rank(limits[i - 1]) {
+            "after-limit-lowered"
+        } else {
+            "after-limit-raised"
+        };
+        let observed: Vec<&SendRec> = sends.iter().filter(|s| s.dest == dgram_addr(i)).collect();
+        if observed.len() != 1 {
+            viol.push((format!("C16|dgram-reconfigure|{phase}|response-count"), format!("{} datagrams sent for request #{i}", observed.len())));
+            continue;
+        }
+        let case_i = ACase { transport: Transport::Udp(limits[i]), ..ac.clone() };
+        let out = AOut { req: req.clone(), svc_bytes: svc_bytes[i].clone(), unconstructible: false, items: vec![Ok(Some(observed[0].data.clone()))], not_ready: false };
+        let (v, label, _) = judge_a(&case_i, &out);
+        st.count(&format!("reconfigure.{phase}.{label}"));
+        for (sig, what) in v {
+            viol.push((
+                sig.replacen("C16|a|udp", &format!("C16|dgram-reconfigure|{phase}"), 1),
+                format!("request #{i} received while the configured limit was {:?} (limits over time {:?}): {what}", limits[i], limits),
+            ));
+        }
+        if col.verbose {
+            println!("  request #{i}: limit at receipt {:?}, service {} octets, sent {} octets, header {}", limits[i], svc_bytes[i].as_ref().map(|b| b.len()).unwrap_or(0), observed[0].data.len(), hex(&observed[0].data[..12.min(observed[0].data.len())]));
+        }
+    }
+    st.distinct(fnv(format!("{rc:?}").as_bytes()));
+    st.sample(4, || json!({"part": "reconfigure", "case": replay.clone(), "sent_octets": sends.iter().map(|s| s.data.len()).collect::<Vec<_>>()}));
+    col.report(viol, &replay);
+}
+
+fn reconfigure_cases(quick: bool) -> Vec<ReconfCase> {
+    let limits = [Some(512u16), Some(1232), Some(4096), None];
+    // service sizes s with s + 11 (the added OPT) at and just above each limit
+    let mut sizes: Vec<usize> = vec![400, 501, 502, 1221, 1222, 2000, 4085, 4086];
+    if !quick {
+        sizes.extend([500, 503, 800, 1220, 1223, 3000, 4084, 4087]);
+        sizes.sort();
+    }
+    let mut v = Vec::new();
+    for l1 in limits {
+        for l2 in limits {
+            if l1 == l2 {
+                continue;
+            }
+            for &size in &sizes {
+                for adv in [1232u16, 4096] {
+                    v.push(ReconfCase { l1, l2, size, adv });
+                }
+            }
+        }
+    }
+    v
+}
+
+// ===========================================================================
 // main
 // ===========================================================================
 
@@ -2061,6 +2274,12 @@ fn main() {
             Some("depth") => {
                 let mut ch = Chooser::default();
                 run_stream(&mut ch, &col, Some(case["n"].as_u64().unwrap() as usize));
+            }
+            Some("reconfigure") => {
+                let l = |k: &str| case[k].as_u64().map(|x| x as u16);
+                let rc = ReconfCase { l1: l("l1"), l2: l("l2"), size: case["size"].as_u64().unwrap() as usize, adv: case["adv"].as_u64().unwrap() as u16 };
+                println!("replaying reconfigure case {rc:?}");
+                run_reconfigure(&rc, &col);
             }
             Some("failed-setups") => {
                 run_failed_setups(case["n"].as_u64().unwrap() as usize, case["max_concurrent_connections"].as_u64().map(|x| x as usize), &col);
@@ -2147,7 +2366,15 @@ fn main() {
         wd.leave();
     }
 
-    let b_execs = dg.executions + sx.executions + max_depth as u64 + fs_cases.len() as u64;
+    // ---- part (e): reconfigure of the datagram response size limit -----------
+    let rc_cases = reconfigure_cases(quick);
+    rc_cases.par_iter().for_each(|rc| {
+        wd.enter(|| json!({"part": "reconfigure"}));
+        run_reconfigure(rc, &col);
+        wd.leave();
+    });
+
+    let b_execs = dg.executions + sx.executions + max_depth as u64 + fs_cases.len() as u64 + rc_cases.len() as u64;
     let evaluations = a_stats.evals() + b_execs;
     let distinct = a_stats.distinct_count() + col.stats.distinct_count();
     let mut samples = a_stats.samples();
@@ -2160,7 +2387,7 @@ fn main() {
             "traces_validated_against_impl": a_stats.evals() + b_execs,
             "evaluations": evaluations,
             "distinct_nontrivial": distinct,
-            "rule": "(a) a case is non-trivial when the middleware changed the service's response, truncated it, or it exceeds the bound; (b) an execution is non-trivial when it has >= 1 non-default choice; (c) every depth; (d) every (n, limit) pair; distinct by hash of the case / choice vector",
+            "rule": "(a) a case is non-trivial when the middleware changed the service's response, truncated it, or it exceeds the bound; (b) an execution is non-trivial when it has >= 1 non-default choice; (c) every depth; (d) every (n, limit) pair; (e) every (l1, l2, size, advertised) tuple; distinct by hash of the case / choice vector",
             "exhaustive": exhaustive,
             "samples": samples,
             "part_a": {
@@ -2174,6 +2401,7 @@ fn main() {
                 "dgram": {"executions": dg.executions, "per_deviation_count": dg.per_bound, "choice_points": dg.choice_points, "max_trace": dg.max_trace, "capped": dg_capped},
                 "stream": {"executions": sx.executions, "per_deviation_count": sx.per_bound, "choice_points": sx.choice_points, "max_trace": sx.max_trace, "capped": sx_capped},
                 "pipeline_depths": max_depth,
+                "reconfigure_cases": rc_cases.len(),
                 "failed_setup_cases": fs_cases.iter().map(|(n, l)| json!([n, l])).collect::<Vec<_>>(),
                 "histogram": col.stats.counters_json(),
             },
@@ -2182,6 +2410,7 @@ fn main() {
             "every tokio::select! in dgram.rs, stream.rs and connection.rs is `biased;`, and each case runs on its own current-thread runtime with a paused clock, so task scheduling is deterministic without tokio_unstable/rng_seed; the only nondeterminism left is what the mocks answer, which is enumerated",
             "schedules covered are those of a single-threaded executor (FIFO run queue) combined with the enumerated arrival gaps, service delays and I/O readiness answers; preemption between arbitrary instructions on a multi-threaded runtime is not explored",
             "part (b) bounds: 3 request slots, one connection plus one concurrent and one later well-behaved connection, <= 3 (quick) / <= 4 (thorough) non-default choices among request kind, segmentation, service behaviour, client abort and every socket/stream answer (incl. poll_accept error and the accepted connection's set-up future resolving to Err)",
+            "part (e): DgramServer with limit l1 serves a request, reconfigure(l2), 1 s, a request, reconfigure(l1), 1 s, a request; l1 != l2 in {512,1232,4096,none}, EDNS 1232/4096, service sizes around every limit; the limit demanded for a request is the one configured when it is received, which is all that dgram::Config::set_max_response_size promises for reconfigure",
             "part (d): n connections whose AsyncAccept::Future resolves to Err arrive one at a time (100 ms apart), then one fresh well-behaved connection; max_concurrent_connections in {1,2,3} with n = 0..=limit+2 (quick) / limit+5 (thorough), and the default 100 with n in {1,99,100,101} (quick) / 1..=130 (thorough); a connection whose set-up failed holds no slot of the connection limit",
             "a complete frame shorter than a DNS header, a client EOF/reset, or an environment write failure on a connection excuses missing responses on THAT connection (closing such a connection is permitted, RFC 7766 6.2.4); other connections and earlier written responses are still checked",
             "a FORMERR response with an empty question section is accepted as echoing the question (the server declares it could not parse the request)",
